@@ -337,6 +337,12 @@ KINDS: dict[str, tuple[Expr, bool]] = {
     "lit1": (A, False),
     "lit2": (S("ab"), False),
     "ilit": (("istr", "ab"), False),
+    # case-insensitive literals whose letters have non-ASCII case variants (k: KELVIN SIGN, s: LONG S) or a
+    # multi-character fold (ss: SHARP S, st: ligatures), alone and in choices the optimizer squashes
+    "ilitk": (("istr", "k"), False),
+    "ilitst": (("istr", "st"), False),
+    "ilitalt": (("choice", ("istr", "ss"), S("x")), False),
+    "ilitalt1": (("choice", ("istr", "k"), S("x"), ("istr", "s")), False),
     "range": (("range", "a", "c"), False),
     "any": (("any",), False),
     "digit": (("builtin", "ASCII_DIGIT"), False),
